@@ -4,7 +4,7 @@
    settings, and the size constants. *)
 From Coq Require Import List NArith String Bool.
 From Gen Require Import Tables.
-From Model Require Import Base Names Flt F32 Matches Detect Decode.
+From Model Require Import Base Names Flt F32 Matches Detect Decode SbLangs.
 From Proofs Require Import DetectFacts DetectSound SbFacts.
 Import ListNotations.
 Open Scope N_scope.
@@ -118,3 +118,34 @@ Theorem C01_single_byte_decoding_is_bytewise :
     sb_strict table l1 = Some t1 -> sb_strict table l2 = Some t2 -> sb_strict table (l1 ++ l2) = Some (t1 ++ t2).
 Proof. exact sb_strict_app. Qed.
 Print Assumptions C01_single_byte_decoding_is_bytewise.
+
+(* the single-byte forward tables themselves are generated from the codec crate's index files on every run
+   (Tables.SB_TABLES, compared with the running crate byte by byte by the `names` level): none of them
+   contains U+FEFF, so the NoFeff hypothesis above holds for the tables of the crate *)
+Definition table_of (e : string) : list N := match SbLangs.sb_table e with Some t => t | None => [] end.
+
+Theorem C01_no_single_byte_table_holds_feff : forall e, Forall (fun c => c <> 65279) (table_of e).
+Proof.
+  assert (H : forallb (fun vt => forallb (fun c => negb (c =? 65279)) (snd vt)) SB_TABLES = true) by (vm_compute; reflexivity).
+  intro e. unfold table_of, SbLangs.sb_table. destruct (codec_of e) as [v|]; [|constructor].
+  destruct (assoc_first v SB_TABLES) as [t|] eqn:E; [|constructor].
+  assert (Hin : In (v, t) SB_TABLES).
+  { clear H. revert E. generalize SB_TABLES as l. induction l as [|[k x] l IH]; cbn [assoc_first]; [discriminate|].
+    destruct (String.eqb k v) eqn:Ek.
+    - intros [= <-]. apply String.eqb_eq in Ek. subst. left. reflexivity.
+    - intro H. right. apply IH. exact H. }
+  rewrite forallb_forall in H. specialize (H _ Hin). cbn [snd] in H. rewrite forallb_forall in H.
+  apply Forall_forall. intros c Hc Heq. specialize (H _ Hc). subst c. discriminate.
+Qed.
+Print Assumptions C01_no_single_byte_table_holds_feff.
+
+Theorem C01_decodes_with_the_crates_tables :
+  forall FO (R : oracles FO), SbModelled FO R table_of ->
+  forall b cfg r, b <> [] -> from_bytes FO R b cfg = Ok r ->
+    forall m e, In m r -> In e (suitable_encodings FO m) ->
+      m_payload FO m = b /\ exists t, m_text FO m = Some t /\ sdecode FO R e (strip b e) = Some t.
+Proof.
+  intros FO R HM. apply C01_decodes_single_byte_modelled with (tables := table_of); [exact HM|].
+  exact C01_no_single_byte_table_holds_feff.
+Qed.
+Print Assumptions C01_decodes_with_the_crates_tables.
